@@ -214,6 +214,7 @@ func c02Prestate() (*verifFS, *refFS) {
 	// a component name reused at a deeper level: "/e/d" is not below "/d"
 	add("/e/d", true, 0)
 	add("/e/d/e", false, 0) // (its name consists of characters of its parent's path)
+	add("/m", true, 0) // an empty directory
 	// a directory whose name has more bytes than characters, with a short-named subdirectory that is not empty
 	add("/\xc3\xa9\xc3\xa9", true, 0)
 	add("/\xc3\xa9\xc3\xa9/y", true, 0)
@@ -272,7 +273,7 @@ func c02Step(v *verifFS, ref *refFS, tag string, light bool) bool {
 		comp := persisters.VerifComponent(tag+"N", 1, "gtx_")
 		name = c02Parents[pi] + "/" + comp
 		if vm.Bool(tag + "useExistingDirAsName") {
-			name = []string{"/d", "/e", "/f", "/d/g", "/\xc3\xa9\xc3\xa9", "/\xc3\xa9\xc3\xa9/y"}[vm.Choice(tag+"existing", 6)]
+			name = []string{"/d", "/e", "/f", "/d/g", "/\xc3\xa9\xc3\xa9", "/\xc3\xa9\xc3\xa9/y", "/m"}[vm.Choice(tag+"existing", 7)]
 		}
 		op = vm.Choice(tag+"op", c02Ops)
 	}
@@ -333,7 +334,7 @@ func c02Step(v *verifFS, ref *refFS, tag string, light bool) bool {
 		want = ref.removeAll(canon)
 	case 6:
 		// rename an existing file or directory onto the name
-		src := []string{"/d/g", "/d", "/f", "/e", "/e/d"}[vm.Choice(tag+"src", 5)]
+		src := []string{"/d/g", "/d", "/f", "/e", "/e/d", "/m"}[vm.Choice(tag+"src", 6)]
 		vm.Known("C02-rename-onto-itself", canon == src)
 		vm.Known("C02-rename-onto-existing-entry", ref.find(canon) != nil && name != src)
 		vm.Known("C02-rename-onto-tombstoned-name", canon == "/t")
